@@ -5,19 +5,22 @@
    decisions are arbitrary functions (env), budgets are arbitrary naturals.
    zrequested n s m p: keyword value s asks for parameter p on mode m (a dict key addresses a mode as Python indexing
    does: `addresses`).  zwf_spec / zwf_specs: dict keys are distinct / keyword names are distinct (what Python guarantees).
-   NOT proved here (kept visible): "the operator of kind k maps into the constraint set of k" - that is C12's subject;
-   it enters C11_returned_factor_feasible_partial as the hypothesis `forall k p v, feas k p (op k p v)`.
+   "The operator of kind k maps into the constraint set of k" enters the generic C11_returned_factor_feasible_partial as the
+   hypothesis `forall k p v, feas k p (op k p v)`; for the operators of C12's model of tenalg/proximal.py (op_c12) that
+   hypothesis is PROVED for six of the eight hard kinds (C11_operators_feasible; unimodality for any number of columns is
+   proved in Proofs/ConstraintsProofsUni.v, C12 has it for one column under a hypothesis) and C11_returned_factor_feasible
+   has no hypothesis left; normalize / normalized_sparsity keep side conditions on the operator's input (0/0 in the code).
    History: before fix c019b1a the scan compared raw dict keys and non_negative={2: ..}, l1_reg={-1: ..} on order 3 was
    accepted (the table theorems needed the hypothesis "keys >= 0" and had refutation witnesses); the model follows the
    repaired scan and the theorems hold for all int keys (Example C11_negative_key_alias_rejected). *)
-From Coq Require Import List Arith Bool ZArith Reals.
+From Coq Require Import List Arith Bool ZArith QArith Reals.
 From TLV Require Import Base.PyList Base.Tensor.
 From TLV Require Import Model.Constraints Proofs.ConstraintsProofs Proofs.ConstraintsProofsLoop Proofs.ConstraintsProofsKeys
   Proofs.ConstraintsProofsTotal.
 From TLV Require Import Base.Ops Model.Prox Proofs.ProxProofsHard Proofs.ProxProofsMono.
-From TLV Require Import Proofs.ConstraintsProofsFeasible.
+From TLV Require Import Proofs.ProxProofsUni Proofs.ConstraintsProofsUni Proofs.ConstraintsProofsFeasible.
 Import ListNotations.
-Close Scope R_scope.
+Close Scope R_scope. Close Scope Q_scope.
 
 (* (i) decision logic at the real call site (the twelve keywords), every request: when the table exists, entry m is (k,p)
    iff keyword k requested p on m, and empty iff nobody requested anything on m *)
@@ -202,6 +205,57 @@ Theorem C11_soft_sparsity_end_to_end : forall (P : Type) (truthy : P -> bool) (t
 Proof. exact @cp_soft_sparsity. Qed.
 Print Assumptions C11_soft_sparsity_end_to_end.
 
+(* unimodality: the factor is the transpose of a rectangular list of unimodal columns (each rises weakly up to some position and
+   falls weakly from it on).  unimodality_prox couples the columns through a global fill value; the theorem holds for any number
+   of columns, also when the selected index is not a flagged peak candidate (Example C11_unimodal_unflagged_index_selected) *)
+Theorem C11_unimodality_end_to_end : forall (P : Type) (truthy : P -> bool) (toR : P -> R) (toN : P -> nat)
+  (other : kind -> P -> mat -> mat) (dM : mat) (msub madd : mat -> mat -> mat) (n : nat) (sp : list (kind * @zspec P))
+  (E : env (M := mat)) (i0 : init (M := mat)) (fixed : list nat) (n_outer n_inner : nat) (zero : mat) (fs : list mat) (m : nat),
+  constrained_cp dM (op_c12 toR toN other) (zvalidate truthy n sp) msub madd E n i0 fixed n_outer n_inner zero = Ok fs ->
+  m < length fs -> init_computed i0 = true \/ (In m (modes_list n fixed) /\ 0 < n_outer) ->
+  forall (s : @zspec P) (p : P), In (KUnimodal, s) sp -> zrequested truthy n s m p ->
+  exists Z, nth m fs dM = cols_of Rops Z /\ Forall (fun z => length z = length (nth m fs dM)) Z /\ Forall unimodalP Z.
+Proof. exact @cp_unimodal. Qed.
+Print Assumptions C11_unimodality_end_to_end.
+
+(* the operator itself, any matrix of columns: every output column is unimodal and as long as its input column *)
+Theorem C11_unimodality_operator_feasible : forall cols : list (list R),
+  Forall unimodalP (unimodality_cols Rops cols) /\
+  map (@length R) (unimodality_cols Rops cols) = map (@length R) cols.
+Proof. exact unimodality_cols_feasible. Qed.
+Print Assumptions C11_unimodality_operator_feasible.
+
+(* hard sparsity column-wise, as the property states it: every column of the returned factor has at most k non-zero entries *)
+Theorem C11_hard_sparsity_columnwise : forall (P : Type) (truthy : P -> bool) (toR : P -> R) (toN : P -> nat)
+  (other : kind -> P -> mat -> mat) (dM : mat) (msub madd : mat -> mat -> mat) (n : nat) (sp : list (kind * @zspec P))
+  (E : env (M := mat)) (i0 : init (M := mat)) (fixed : list nat) (n_outer n_inner : nat) (zero : mat) (fs : list mat) (m : nat),
+  constrained_cp dM (op_c12 toR toN other) (zvalidate truthy n sp) msub madd E n i0 fixed n_outer n_inner zero = Ok fs ->
+  m < length fs -> init_computed i0 = true \/ (In m (modes_list n fixed) /\ 0 < n_outer) ->
+  forall (s : @zspec P) (p : P), In (KHardSparsity, s) sp -> zrequested truthy n s m p ->
+  forall c, In c (cols_of Rops (nth m fs dM)) -> nnzR c <= toN p.
+Proof. exact @cp_hard_sparsity_columns. Qed.
+Print Assumptions C11_hard_sparsity_columnwise.
+
+(* the hypothesis of C11_returned_factor_feasible_partial, PROVED for the operators of op_c12: feas_c12 k p is the constraint set
+   of kind k (non_negative: entries >= 0; unimodality / monotonicity: rectangular transpose of unimodal / non-decreasing columns;
+   simplex / soft_sparsity with parameter > 0: columns >= 0 summing to p / of l1 norm <= p; hard_sparsity: <= k non-zeros in the
+   factor and in every column; `True` for normalize, normalized_sparsity and the four penalty kinds) *)
+Theorem C11_operators_feasible : forall (P : Type) (toR : P -> R) (toN : P -> nat) (other : kind -> P -> mat -> mat)
+  (k : kind) (p : P) (v : mat), feas_c12 toR toN k p (op_c12 toR toN other k p v).
+Proof. exact @op_c12_feasible. Qed.
+Print Assumptions C11_operators_feasible.
+
+(* ... hence, with no hypothesis on the operators left: every request, kind, mode, budget, environment, initialisation *)
+Theorem C11_returned_factor_feasible : forall (P : Type) (truthy : P -> bool) (toR : P -> R) (toN : P -> nat)
+  (other : kind -> P -> mat -> mat) (dM : mat) (msub madd : mat -> mat -> mat) (n : nat) (sp : list (kind * @zspec P))
+  (E : env (M := mat)) (i0 : init (M := mat)) (fixed : list nat) (n_outer n_inner : nat) (zero : mat) (fs : list mat) (m : nat),
+  constrained_cp dM (op_c12 toR toN other) (zvalidate truthy n sp) msub madd E n i0 fixed n_outer n_inner zero = Ok fs ->
+  m < length fs -> init_computed i0 = true \/ (In m (modes_list n fixed) /\ 0 < n_outer) ->
+  forall (k : kind) (s : @zspec P) (p : P), In (k, s) sp -> zrequested truthy n s m p ->
+  feas_c12 toR toN k p (nth m fs dM).
+Proof. exact @cp_feasible. Qed.
+Print Assumptions C11_returned_factor_feasible.
+
 (* max-normalisation: max |entry| of the factor = 1 (the code normalises the whole factor) whenever the operator's input v is
    not zero (otherwise 0/0) and rectangular.  _partial: the side conditions are on the operator's unknown input *)
 Theorem C11_normalize_end_to_end_partial : forall (P : Type) (truthy : P -> bool) (toR : P -> R) (toN : P -> nat)
@@ -363,33 +417,55 @@ Example C11_nonvacuous_skeleton :
 Proof. vm_compute. reflexivity. Qed.
 
 (* non-vacuity of the end-to-end theorems: with the C12 operators a run exists from 2 x 2 real factors for non_negative on mode 0
-   (by key -3) and hard_sparsity = 2 on mode 1 (by list), order 3, any environment, budgets (2, 1); the hypotheses of
-   C11_non_negative_end_to_end / C11_hard_sparsity_end_to_end are then jointly satisfied and their conclusions hold of that run *)
+   (by key -3), hard_sparsity = 2 on mode 1 (by list) and unimodality on mode 2 (by key 2), order 3, any environment, budgets
+   (2, 1); the hypotheses of C11_non_negative_end_to_end / C11_hard_sparsity_end_to_end / C11_unimodality_end_to_end /
+   C11_returned_factor_feasible are then jointly satisfied and their conclusions hold of that run *)
 Example C11_end_to_end_nonvacuous : forall (other : kind -> nat -> mat -> mat) (E : env (M := mat)),
   let truthy := fun p : nat => negb (Nat.eqb p 0) in
-  let sp := zkeywords (fun k => match k with KNonNeg => ZDict [((-3)%Z, 1)] | KHardSparsity => ZList [None; Some 2] | _ => ZNone end) in
+  let sp := zkeywords (fun k => match k with KNonNeg => ZDict [((-3)%Z, 1)] | KHardSparsity => ZList [None; Some 2]
+                                           | KUnimodal => ZDict [(2%Z, 1)] | _ => ZNone end) in
   let A : mat := [[1; -2]; [3; 4]]%R in
   exists fs, constrained_cp [] (op_c12 INR (fun p => p) other) (zvalidate truthy 3 sp) (fun a _ => a) (fun a _ => a) E 3
                             (IComputed [A; A; A]) [] 2 1 [] = Ok fs /\
-             Forall (fun a : R => (0 <= a)%R) (concat (nth 0 fs [])) /\ nnzR (concat (nth 1 fs [])) <= 2.
+             Forall (fun a : R => (0 <= a)%R) (concat (nth 0 fs [])) /\ nnzR (concat (nth 1 fs [])) <= 2 /\
+             (exists Z, nth 2 fs [] = cols_of Rops Z /\ Forall (fun z => length z = length (nth 2 fs [])) Z /\ Forall unimodalP Z) /\
+             feas_c12 INR (fun p => p) KHardSparsity 2 (nth 1 fs []).
 Proof.
   intros other E. cbv zeta.
-  set (sp := zkeywords (fun k => match k with KNonNeg => ZDict [((-3)%Z, 1)] | KHardSparsity => ZList [None; Some 2] | _ => ZNone end)).
+  set (sp := zkeywords (fun k => match k with KNonNeg => ZDict [((-3)%Z, 1)] | KHardSparsity => ZList [None; Some 2]
+                                            | KUnimodal => ZDict [(2%Z, 1)] | _ => ZNone end)).
   set (truthy := fun p : nat => negb (Nat.eqb p 0)).
-  assert (T : zvalidate_table truthy 3 sp = Ok [Some (KNonNeg, 1); Some (KHardSparsity, 2); None]) by (vm_compute; reflexivity).
+  assert (T : zvalidate_table truthy 3 sp = Ok [Some (KNonNeg, 1); Some (KHardSparsity, 2); Some (KUnimodal, 1)]) by (vm_compute; reflexivity).
   destruct (@zcp_valid_request_returns nat truthy mat [] (op_c12 INR (fun p => p) other) (fun a _ => a) (fun a _ => a) 3 sp _ E
               (IComputed [[[1; -2]; [3; 4]]; [[1; -2]; [3; 4]]; [[1; -2]; [3; 4]]]%R) [] 2 1 [] T) as (fs & Hrun); auto.
   { right. vm_compute. auto. }
   exists fs. split; [exact Hrun|].
   pose proof (cp_skeleton _ _ _ _ _ _ _ _ _ _ _ _ _ Hrun) as (L & _). simpl in L.
-  split.
+  split; [|split; [|split]].
   - eapply (@cp_nonneg nat truthy INR (fun p => p) other) with (m := 0) (p := 1) (s := ZDict [((-3)%Z, 1)]); eauto; try (rewrite L; auto).
     + apply zkeywords_In. reflexivity.
     + simpl. exists (-3)%Z. split; [left; reflexivity|]. right. split; reflexivity.
   - eapply (@cp_hard_sparsity nat truthy INR (fun p => p) other) with (m := 1) (p := 2) (s := ZList [None; Some 2]); eauto; try (rewrite L; auto).
     + apply zkeywords_In. reflexivity.
     + simpl. auto.
+  - eapply (@cp_unimodal nat truthy INR (fun p => p) other) with (m := 2) (p := 1) (s := ZDict [(2%Z, 1)]); eauto; try (rewrite L; auto).
+    + apply zkeywords_In. reflexivity.
+    + simpl. exists 2%Z. split; [left; reflexivity|]. left. split; reflexivity.
+  - eapply (@cp_feasible nat truthy INR (fun p => p) other) with (m := 1) (k := KHardSparsity) (p := 2) (s := ZList [None; Some 2]); eauto; try (rewrite L; auto).
+    + apply zkeywords_In. reflexivity.
+    + simpl. auto.
 Qed.
+
+(* the case C12's single-column theorem excludes does occur: on the column [0; 1] the coded operator selects index 0, which is
+   NOT a flagged peak candidate (its score ties with the fill value), and returns [0; 1/2] - unimodal, as
+   C11_unimodality_operator_feasible says; on two columns the fill value of the first comes from the second *)
+Example C11_unimodal_unflagged_index_selected :
+  let v := [0; 1]%Q in
+  let sc := uni_scores Qops v in
+  nth (argmin Qops (uni_difference 0%Q sc)) (fst sc) true = false /\
+  unimodality_cols Qops [v] = [[0; 1 # 2]%Q] /\
+  unimodality_cols Qops [[0; 1]; [3; 1; 2]]%Q = [[0; 1]; [3; 3 # 2; 3 # 2]]%Q.
+Proof. repeat split; vm_compute; reflexivity. Qed.
 
 (* the scope limit of the property's headline clause, as an example (C11_skeleton, third clause): a user-supplied initial CP
    tensor is NOT passed through the operators; with outer budget 0 (or on a fixed mode) the user's factor comes back as it is,
